@@ -9,16 +9,16 @@ import "fmt"
 const (
 	STOP, ADD, MUL, SUB, DIV, SDIV, MOD, SMOD, ADDMOD, MULMOD, EXP, SIGNEXTEND = 0x00, 0x01, 0x02, 0x03, 0x04, 0x05, 0x06, 0x07, 0x08, 0x09, 0x0a, 0x0b
 	LT, GT, SLT, SGT, EQ, ISZERO, AND, OR, XOR, NOT, BYTE, SHL, SHR, SAR       = 0x10, 0x11, 0x12, 0x13, 0x14, 0x15, 0x16, 0x17, 0x18, 0x19, 0x1a, 0x1b, 0x1c, 0x1d
-	SHA3                                                                      = 0x20
-	ADDRESS, BALANCE, ORIGIN, CALLER, CALLVALUE                               = 0x30, 0x31, 0x32, 0x33, 0x34
-	CALLDATALOAD, CALLDATASIZE, CALLDATACOPY, CODESIZE, CODECOPY              = 0x35, 0x36, 0x37, 0x38, 0x39
-	GASPRICE, EXTCODESIZE, EXTCODECOPY, RETURNDATASIZE, RETURNDATACOPY        = 0x3a, 0x3b, 0x3c, 0x3d, 0x3e
-	EXTCODEHASH, BLOCKHASH, SELFBALANCE                                       = 0x3f, 0x40, 0x47
-	POP, MLOAD, MSTORE, MSTORE8, SLOAD, SSTORE, JUMP, JUMPI, PC, MSIZE, GAS   = 0x50, 0x51, 0x52, 0x53, 0x54, 0x55, 0x56, 0x57, 0x58, 0x59, 0x5a
-	JUMPDEST, TLOAD, TSTORE, MCOPY, PUSH0, PUSH1, PUSH2, PUSH32               = 0x5b, 0x5c, 0x5d, 0x5e, 0x5f, 0x60, 0x61, 0x7f
-	DUP1, SWAP1, LOG0, LOG1                                                   = 0x80, 0x90, 0xa0, 0xa1
-	CREATE, CALL, CALLCODE, RETURN, DELEGATECALL, CREATE2, STATICCALL         = 0xf0, 0xf1, 0xf2, 0xf3, 0xf4, 0xf5, 0xfa
-	REVERT, INVALID, SELFDESTRUCT                                             = 0xfd, 0xfe, 0xff
+	SHA3                                                                       = 0x20
+	ADDRESS, BALANCE, ORIGIN, CALLER, CALLVALUE                                = 0x30, 0x31, 0x32, 0x33, 0x34
+	CALLDATALOAD, CALLDATASIZE, CALLDATACOPY, CODESIZE, CODECOPY               = 0x35, 0x36, 0x37, 0x38, 0x39
+	GASPRICE, EXTCODESIZE, EXTCODECOPY, RETURNDATASIZE, RETURNDATACOPY         = 0x3a, 0x3b, 0x3c, 0x3d, 0x3e
+	EXTCODEHASH, BLOCKHASH, SELFBALANCE                                        = 0x3f, 0x40, 0x47
+	POP, MLOAD, MSTORE, MSTORE8, SLOAD, SSTORE, JUMP, JUMPI, PC, MSIZE, GAS    = 0x50, 0x51, 0x52, 0x53, 0x54, 0x55, 0x56, 0x57, 0x58, 0x59, 0x5a
+	JUMPDEST, TLOAD, TSTORE, MCOPY, PUSH0, PUSH1, PUSH2, PUSH32                = 0x5b, 0x5c, 0x5d, 0x5e, 0x5f, 0x60, 0x61, 0x7f
+	DUP1, SWAP1, LOG0, LOG1                                                    = 0x80, 0x90, 0xa0, 0xa1
+	CREATE, CALL, CALLCODE, RETURN, DELEGATECALL, CREATE2, STATICCALL          = 0xf0, 0xf1, 0xf2, 0xf3, 0xf4, 0xf5, 0xfa
+	REVERT, INVALID, SELFDESTRUCT                                              = 0xfd, 0xfe, 0xff
 )
 
 // Asm builds byte code. Labels are resolved to PUSH2 operands by Bytes.
